@@ -15,7 +15,24 @@ use crate::rng;
 pub const VERIF: &str = "/verif";
 
 pub fn verif_path(rel: &str) -> PathBuf {
-    Path::new(VERIF).join(rel)
+    match std::env::var("VERIF_ROOT") {
+        Ok(r) if !r.is_empty() => Path::new(&r).join(rel),
+        _ => Path::new(VERIF).join(rel),
+    }
+}
+
+pub fn replay_path(name: &str) -> PathBuf {
+    match std::env::var("VERIF_REPLAY_DIR") {
+        Ok(r) if !r.is_empty() => Path::new(&r).join(name),
+        _ => verif_path("replays").join(name),
+    }
+}
+
+pub fn evidence_path(property: &str) -> PathBuf {
+    match std::env::var("VERIF_EVIDENCE_DIR") {
+        Ok(r) if !r.is_empty() => Path::new(&r).join(format!("{}.json", property)),
+        _ => verif_path("evidence").join(format!("{}.json", property)),
+    }
 }
 
 pub fn env_seed() -> u64 {
@@ -265,5 +282,5 @@ pub fn write_evidence(e: EvidenceIn) -> Result<(), String> {
         "wall_s": wall,
         "violations": e.violations,
     });
-    write_json(&verif_path(&format!("evidence/{}.json", e.property)), &v)
+    write_json(&evidence_path(e.property), &v)
 }
